@@ -148,4 +148,10 @@ theorem addAttribute_fold_count (xs : List Attr) (hx : ∀ a ∈ xs, a.min ≤ 1
       rw [lookup_add_other acc hs'] at ih'
       simpa [hs'] using ih'
 
+theorem fold_nodup (xs : List Attr) : ∀ acc, NodupKeys acc → NodupKeys (xs.foldl addAttribute acc) := by
+  induction xs with
+  | nil => intro acc h; simpa using h
+  | cons x rest ih => intro acc h; simpa using ih _ (addAttribute_nodup x h)
+
+
 end Xs.Samples
